@@ -60,7 +60,7 @@ impl Ctx {
             .ok()
             .and_then(|s| s.parse().ok())
             .unwrap_or_else(|| match tier {
-                Tier::Quick => 8,
+                Tier::Quick => 16,
                 Tier::Thorough => 16,
             });
         Ctx {
